@@ -62,7 +62,10 @@ impl ValGen<'_, '_> {
                 json!(c[self.t.pick(c.len())])
             }
             Ty::Object => {
-                let c = [json!(null), json!(1), json!("s"), json!([1, "two", null]), json!({"k": {"nested": [true]}}), json!({}), json!(false)];
+                let c = [
+                    json!(null), json!(1), json!("s"), json!([1, "two", null]), json!({"k": {"nested": [true]}}), json!({}), json!(false),
+                    json!({"unset": null, "in": {"deep": null, "list": [null, {"x": null}]}}), json!([[], {}, ""]),
+                ];
                 c[self.t.pick(c.len())].clone()
             }
             Ty::Named(n) => match self.lookup(n) {
@@ -244,10 +247,52 @@ pub struct Built {
     pub batch: Batch,
 }
 
+/// Hand-written definitions that are part of every run: shapes the random definitions reach only now
+/// and then (an error that carries the local name of a standard error, a map of nullable values, an
+/// `object` member, an error without parameters, a method with neither input nor output).
+fn fixed_items() -> Vec<crate::c09::Item> {
+    let f = |n: &str, t: Ty| (n.to_string(), t);
+    let opt = |t: Ty| Ty::Opt(Box::new(t));
+    let named = |n: &str| Ty::Named(n.to_string());
+    let m = |name: &str, def: Def| Member { name: name.to_string(), docs: vec![], def };
+    let idl1 = Idl {
+        name: "org.example.fixed-1".into(),
+        docs: vec![],
+        members: vec![
+            m("T", Def::Type(Ty::Struct(vec![f("a", Ty::Int), f("b", opt(Ty::Str)), f("any", Ty::Object), f("tags", Ty::Dict(Box::new(Ty::Struct(vec![]))))]))),
+            m("Get", Def::Method(vec![f("name", Ty::Str)], vec![f("t", named("T"))])),
+            m("List", Def::Method(vec![f("filter", opt(named("T")))], vec![f("items", Ty::Array(Box::new(named("T")))), f("index", Ty::Dict(Box::new(opt(Ty::Int))))])),
+            m("Nothing", Def::Method(vec![], vec![])),
+            m("InterfaceNotFound", Def::Error(vec![f("interface", Ty::Str), f("n", Ty::Int)])),
+            m("NotFound", Def::Error(vec![f("name", Ty::Str), f("t", opt(named("T")))])),
+            m("Busy", Def::Error(vec![])),
+        ],
+    };
+    let idl2 = Idl {
+        name: "org.example.fixed2".into(),
+        docs: vec![],
+        members: vec![
+            m("State", Def::Type(Ty::Enum(vec!["on".into(), "off".into(), "type".into()]))),
+            m("Set", Def::Method(vec![f("state", named("State")), f("values", Ty::Dict(Box::new(opt(Ty::Float)))), f("extra", opt(Ty::Object))], vec![f("previous", opt(named("State")))])),
+            m("InterfaceNotFound", Def::Error(vec![])),
+            m("Failed", Def::Error(vec![f("reason", opt(Ty::Str)), f("states", Ty::Array(Box::new(opt(named("State")))))])),
+        ],
+    };
+    [idl1, idl2]
+        .into_iter()
+        .enumerate()
+        .map(|(k, idl)| {
+            let text = print_idl(&idl);
+            crate::c09::Item { idx: 9000 + k, class: crate::known::known_class(&idl), idl, text, fe: FrontEnd::LibToSource }
+        })
+        .collect()
+}
+
 /// Build the batch crate with the driver for the seed's fixed definition set.
 pub fn build(ctx: &mut Ctx, n: usize) -> Option<Built> {
     // draw definitions until `n` of them are outside the known classes
-    let mut items = vec![];
+    let mut items = fixed_items();
+    let n = n + items.len();
     let mut start = 0;
     while items.len() < n && start < n * 8 {
         for it in gen_items(ctx.seed, "c08", n, start) {
